@@ -506,4 +506,100 @@ theorem filter_complete_aux {lk : Lookup} (hlk : FourLetter lk) (t q : List UInt
   generalize (t.length - a + b) / off * off = P at hdiv1 hdiv2 hd'
   refine ⟨⟨⟨?_, ?_⟩, ?_⟩, ?_⟩ <;> omega
 
+/-! ### the ticker repair changes nothing on a query over the alphabet -/
+
+/-- the same configuration with the other ticker -/
+def withTicker (c : Cfg) (b : Bool) : Cfg := { c with rule := { c.rule with tickByPosition := b } }
+
+theorem tickLoop_wt (c : Cfg) (b : Bool) (passed : Nat) : ∀ (fuel : Nat) (st : St) (ticker : Nat),
+    tickLoop (withTicker c b) passed fuel st ticker = tickLoop c passed fuel st ticker := by
+  intro fuel
+  induction fuel with
+  | zero => intro st ticker; rfl
+  | succ n ih =>
+    intro st ticker
+    rw [tickLoop, tickLoop]
+    by_cases h : ticker ≤ passed
+    · rw [if_pos h, if_pos h]; exact ih _ _
+    · rw [if_neg h, if_neg h]
+
+theorem flushLoop_wt (c : Cfg) (b : Bool) : ∀ (n ti : Nat) (s : St),
+    flushLoop (withTicker c b) n ti s = flushLoop c n ti s := by
+  intro n
+  induction n with
+  | zero => intro ti s; rfl
+  | succ n ih => intro ti s; rw [flushLoop, flushLoop]; exact ih _ _
+
+theorem stepPos_wt (c : Cfg) (b : Bool) (l : Loop) (p : Nat) (ts : List Nat) :
+    stepPos (withTicker c b) l p ts = stepPos c l p ts := by
+  unfold stepPos tick
+  rw [tickLoop_wt]
+  rfl
+
+theorem scanN_wt (c : Cfg) (b : Bool) (ts : Nat → List Nat) (l0 : Loop) (N : Nat) :
+    scanN (withTicker c b) ts l0 N = scanN c ts l0 N := by
+  induction N with
+  | zero => rfl
+  | succ N ih => rw [scanN_succ, scanN_succ, ih, stepPos_wt]
+
+theorem scanN_congr (c : Cfg) (ts ts' : Nat → List Nat) (l0 : Loop) (N : Nat) (h : ∀ p, p < N → ts p = ts' p) :
+    scanN c ts l0 N = scanN c ts' l0 N := by
+  induction N with
+  | zero => rfl
+  | succ N ih => rw [scanN_succ, scanN_succ, ih (fun p hp => h p (by omega)), h N (by omega)]
+
+theorem foldl_calls_count (c : Cfg) (ix : Index) (W : Nat → Nat) (N : Nat) (l0 : Loop) :
+    ((List.range N).map fun p => (p, W p)).foldl (fun l call => onKmerCount c l call.1 (targetPositions ix call.2)) l0
+      = scanCount c (fun p => targetPositions ix (W p)) l0 N := by
+  unfold scanCount
+  rw [List.foldl_map, List.foldl_map]
+
+/-- on a query over the alphabet the code of the first wave (callback-counting ticker) and the
+    repaired code (ticker on the query position) compute the same `Filter` result -/
+theorem filter_countdown_eq {lk : Lookup} (hlk : FourLetter lk) (rule : Rule) (hrule : rule.tickByPosition = true)
+    (ix : Index) (p : Params) (q : List UInt8) (selfAlign complement : Bool)
+    (hk : 1 ≤ ix.k) (hk2 : 2 * ix.k ≤ wordBits) (hq : AllValid lk q) (hkq : ix.k ≤ q.length)
+    (he : p.maxError ≤ p.tubeOffset) (hoff : 1 ≤ p.tubeOffset) :
+    filter { rule with tickByPosition := false } lk ix p q selfAlign complement =
+      filter rule lk ix p q selfAlign complement := by
+  have hnew := filter_eq_run hlk rule ix p q selfAlign complement hrule hk hk2 hkq he hoff
+  simp only [] at hnew
+  rw [hnew]
+  unfold filter
+  rw [if_neg (by omega), if_neg (by omega)]
+  unfold scanFrom
+  simp only []
+  rw [query_calls hlk ix.k hk hk2 q hq, forEachKmer_err lk ix.k q 0 q.length (by omega) (Nat.le_refl _)]
+  simp only [Bool.false_eq_true, if_false]
+  have hc : mkCfg { rule with tickByPosition := false } ix.k ix.seq.length p selfAlign complement
+      = withTicker (mkCfg rule ix.k ix.seq.length p selfAlign complement) false := rfl
+  rw [hc]
+  have hfold : ∀ (l0 : Loop) (cs : List (Nat × Nat)),
+      cs.foldl (fun l call => onKmer (withTicker (mkCfg rule ix.k ix.seq.length p selfAlign complement) false) l call.1
+        (targetPositions ix call.2)) l0 =
+      cs.foldl (fun l call => onKmerCount (withTicker (mkCfg rule ix.k ix.seq.length p selfAlign complement) false) l call.1
+        (targetPositions ix call.2)) l0 := by
+    intro l0 cs
+    congr 1
+  rw [hfold, foldl_calls_count]
+  have hoff' : 1 ≤ (withTicker (mkCfg rule ix.k ix.seq.length p selfAlign complement) false).off := hoff
+  have heq := scanCount_eq (withTicker (mkCfg rule ix.k ix.seq.length p selfAlign complement) false) hoff'
+    (fun pos => targetPositions ix (wordFn lk ix.k q pos))
+    { st := { tubes := Array.replicate (withTicker (mkCfg rule ix.k ix.seq.length p selfAlign complement) false).cap default, hits := [] },
+      ticker := p.tubeOffset + p.maxError } (by show 1 ≤ p.tubeOffset + p.maxError; omega) (q.length + 1 - ix.k)
+  have hvalid : ∀ pos, pos < q.length + 1 - ix.k →
+      (fun pos => targetPositions ix (wordFn lk ix.k q pos)) pos = tsOf lk ix q pos := by
+    intro pos hpos
+    obtain ⟨w, hw⟩ := wordOf_of_valid lk ix.k (q.drop pos) (fun x hx => hq x (List.mem_of_mem_drop hx))
+      (by rw [List.length_drop]; omega)
+    show targetPositions ix (wordFn lk ix.k q pos) = tsOf lk ix q pos
+    unfold tsOf wordFn wordAt
+    rw [hw]
+    rfl
+  rw [scanN_wt, scanN_congr _ _ _ _ _ hvalid] at heq
+  show (if (flushLoop _ _ _ (tubeEnd _ (scanCount _ _ _ _).st _)).panic = true then _ else _) = _
+  rw [heq.1, show q.length + 1 - ix.k = q.length - ix.k + 1 by omega]
+  simp only [flushLoop_wt]
+  rfl
+
 end Biogo.Proofs.FilterComplete
